@@ -2,4 +2,18 @@
 export GOFLAGS=-mod=mod GOPROXY=off GOSUMDB=off GOTOOLCHAIN=local
 export CARGO_NET_OFFLINE=true PIP_NO_INDEX=1
 VERIF=/verif
-GEN=$VERIF/.gen
+# Development aid only (never used by the registered commands): VERIF_REPO points the build at another checkout of the
+# repository and VERIF_OUT at another output root (bin, .gen, evidence, replays), so that a seeded tree can be judged
+# without touching /repo or the committed evidence. Unset, everything is /repo and /verif.
+REPO=${VERIF_REPO:-/repo}
+OUT=${VERIF_OUT:-/verif}
+export VERIF_OUT=$OUT
+GEN=$OUT/.gen
+BIN=$OUT/bin
+MODFLAG=""
+if [ "$REPO" != "/repo" ]; then
+  mkdir -p $GEN
+  sed "s#=> /repo\$#=> $REPO#" $VERIF/go.mod > $GEN/go.mod
+  cp $VERIF/go.sum $GEN/go.sum
+  MODFLAG="-modfile=$GEN/go.mod"
+fi
